@@ -1,4 +1,5 @@
 """C07 - code generation happens only after an error-free compilation (main.rs, compilation_state.rs, lib.rs)."""
+import re
 from mirlib import AnchorMissing, op_place, path_matches, const_int, is_bare
 from helpers import (branches_on_call, branches_on_field, ungated_reach, chain, calls_matching, field_accesses,
                      must_pass, origin_calls, origin_summary)
@@ -355,6 +356,50 @@ def r_has_errors_reads_kind(r, prog):
     r.floor(2)
 
 
+def r_every_input_compiled(r, prog):
+    """"Every input file was read, parsed, resolved and validated": the entry points hand the files to the compilation phases on every path,
+    except the one on which reading them already recorded an error. No other condition (what kind of files they are, how many) may decide
+    whether the files are compiled: a skipped compilation is an error-free state, after which generators run."""
+    import guards as _g
+    cg = prog.callgraph()
+    target = 'slicec::parsers::parse_files'
+    if target not in prog.fns:
+        raise AnchorMissing(target)
+
+    def reaches(a):
+        seen, todo = {a}, [a]
+        while todo:
+            x = todo.pop()
+            if x == target:
+                return True
+            for y in cg.get(x, ()):
+                if y not in seen and y.startswith('slicec::'):
+                    seen.add(y)
+                    todo.append(y)
+        return False
+    n = 0
+    for ep in ('slicec::compile_from_options', 'slicec::compile_from_strings'):
+        f = prog.fn(ep)
+        cs = [c for c in f.calls() if not f.blocks[c.bb].get('cleanup') and (c.resolved or c.callee or '') in prog.fns and reaches(c.resolved or c.callee)]
+        if not cs:
+            r.finding('inputs-never-compiled:%s' % f.name, f.span, '%s never hands its files to the compilation phases' % ep)
+            continue
+        rets = f.return_blocks()
+        # conditions deciding whether the phases run: every branch between the entry and the calls
+        for c in cs:
+            n += 1
+            gs = [g for g in _g.guard_set(prog, f, c.bb) if not _g._LOOP_HAS_NEXT.match(g) and not re.match(r'^arg\d+ is (Some|None|not Some)$', g)]
+            other = [g for g in gs if 'has_errors(' not in g]
+            if other:
+                r.finding('compilation-skipped-for-another-reason:%s' % f.name, c.span,
+                          '%s compiles its files only under %s: when the condition does not hold nothing is parsed or validated, no error is recorded, and generation goes ahead' % (ep, other))
+            else:
+                r.ok('%s: the files are compiled %s' % (f.name, 'unless reading them recorded an error' if gs else 'unconditionally'))
+        if not must_pass(f, 0, rets, [c.bb for c in cs]) and not any('has_errors(' in g for c in cs for g in _g.guard_set(prog, f, c.bb)):
+            r.finding('compilation-can-be-skipped:%s' % f.name, f.span, '%s can return without compiling its files' % ep)
+    r.floor(2)
+
+
 def run(ctx):
     prog = ctx.prog
     ctx.run_rule('C07.1a', 'T1', 'process/file effects only in the two generator functions', r_effect_sites, prog)
@@ -364,6 +409,7 @@ def run(ctx):
     ctx.run_rule('C07.3a', 'T10', 'exit status derives from the error count of the emitted vector', r_exit_status, prog)
     ctx.run_rule('C07.3b', 'T3', 'every generator result is folded into the diagnostics; wait loop has no early exit', r_generator_results_folded, prog)
     ctx.run_rule('C07.4a', 'T2', 'compilation phases run only through apply/apply_unsafe on the no-errors edge', gating.r_phase_gating, prog)
+    ctx.run_rule('C07.4e', 'T2', 'the entry points compile every input unless reading the inputs recorded an error', r_every_input_compiled, prog)
     ctx.run_rule('C07.4b', 'T1', 'has_errors() inspects kind, not level', r_has_errors_reads_kind, prog)
     ctx.run_rule('C07.4c', 'T1', 'level Error is carried exactly by Error kinds (exit status and gating agree)', levels.r_level_error_only_for_error_kind, prog)
     ctx.run_rule('C07.4d', 'T1', 'the level of an error cannot be lowered: level is rewritten only inside the Lint arm of into_updated (an allowed error would exit 0)', levels.r_level_writers, prog)
